@@ -28,7 +28,7 @@ QUANTIFIED OVER: {p['quantifier']['text']}
 Each change must need something SPECIFIC to manifest - a particular multi-step sequence of instructions/phases, an unusual but legal input, a failure at a particular step, a particular combination of options, or two cooperating code sites that each look fine alone - not something that ordinary use (e.g. the files under examples/) would expose at once.
 
 For each change i in ({{I1}}, {{I2}}) deliver in {wt}:
- - seed{pid}_i.diff : `git diff` of the source change only (apply one change at a time: start each from a clean tree with `git stash` / `git checkout -- src`),
+ - seed{pid}_i.diff : `git diff` of the source change only (apply one change at a time: start each from a clean tree with `git diff > saved.diff; git checkout -- src`; NEVER use `git stash`: the stash is shared by all worktrees of the repository and other engineers work in theirs),
  - demo{pid}_i.py : a self-contained demonstration (python script using only the standard library and the program under test, run as `PYTHONPATH={wt}/src /venv/bin/python demo{pid}_i.py`) that creates the test-case files it needs in a temporary directory, runs the real program, checks the property on that input, and exits 1 (printing what is wrong) WITH the change applied and exits 0 WITHOUT it. Verify both directions yourself.
 Leave the worktree's src clean (no change applied) when you finish; keep only the .diff and demo files (untracked) in {wt}.
 
